@@ -1044,6 +1044,10 @@ inductive Stored (P : Type) where
   | fits (f : FitsFile)
   | pickle (p : P)
 
+/-- the format of a file (what the magic bytes of the real file say) -/
+def Stored.fmt {P : Type} : Stored P → Fmt
+  | .asdf _ => .asdf | .fits _ => .fits | .pickle _ => .pickle
+
 /-- `write_grid(grid, filename, fmt)`: the format is resolved, `grid.to_dict()` is computed (for
 every format), then the format's writer runs.  A pickle holds the object (default pickling). -/
 def writeGridFile (lib : AsdfLib) (name : List Char) (fmt : Option String) (g : Grid) :
